@@ -41,6 +41,10 @@ func ipamHistSystems(cloud bool) []*HistSys {
 		out = append(out, &HistSys{Class: c, Cfg: cfgTwoPools(cloud), NPods: 2, Replicas: 2, Ops: ops, PrefixName: "onedeleted", Prefix: oneEach})
 		out = append(out, &HistSys{Class: c, Cfg: cfgTwoPools(cloud), NPods: 2, Replicas: 2, Ops: ops, PrefixName: "lateevents", Prefix: staleEvents})
 	}
+	// pods whose keys are in a prefix relation (a-1 / a-10 of an eleven-replica statefulset, b-1 / b-10 without owner)
+	for _, c := range []wkClass{{"stspfx", ""}, {"stspfx", "immutable"}, {"barepfx", ""}} {
+		out = append(out, &HistSys{Class: c, Cfg: cfgTwoPools(cloud), NPods: 2, Replicas: 11, Ops: ops, PrefixName: "allbound", Prefix: bound})
+	}
 	// two pools that share one pod subnet (disjoint ranges, different node subnets), with restarts in the alphabet: which pool an
 	// allocated IP belongs to is decided again whenever the tables are rebuilt
 	opsR := map[string]bool{"restart": true}
